@@ -29,7 +29,8 @@ LEVEL = "proof"
 RULE = ("labels: random number trees (leaf-only, balanced, degenerate chains, combs, random splits; direct and "
         "indirect nodes and label dictionaries) over random label dictionaries (styles D R r A a, none, prefixes in "
         "PDFDocEncoding and UTF-16BE, St present/absent) and page counts; outlines: random forests incl. long sibling "
-        "chains (>= 1500 in every run) and deep nesting, titles in both encodings, Dest / A / both; names: random name "
+        "chains (>= 1500 in every run) and deep nesting, titles in both encodings, Dest / A / both, plus outlines whose "
+        "First/Next links were rewired into cycles / shared / dangling links (tie and termination only); names: random name "
         "trees (same shapes, Limits tight) with present and absent keys (below, between, above, prefixes/extensions of "
         "keys, str names against the PDF-1.1 Dests dictionary); text: random strings in both encodings incl. surrogate "
         "pairs, every PDFDocEncoding byte; formatters: roman exhaustively 1..3999, alpha 1..N.  A case is non-trivial "
@@ -37,8 +38,9 @@ RULE = ("labels: random number trees (leaf-only, balanced, degenerate chains, co
 TRUSTED_BASE = [
     "tools/translate/gen_c17.py (Python ast -> Lean) for ROMAN_ONES, ROMAN_FIVES, PDFDocEncoding - each translated "
     "table is also run against the Python original (roman exhaustively, all 256 bytes)",
-    "hand models lean/PdfVerif/Model/Labels.lean (NumberTree._parse/values, PageLabels.labels, _format_page_label, "
-    "format_int_roman/alpha, decode_text), Model/Outline.lean (get_outlines.search), Model/NameTree.lean "
+    "hand models lean/PdfVerif/Model/Labels.lean (NumberTree._parse/values incl. settings.STRICT, PageLabels.labels, "
+    "_format_page_label, format_int_roman/alpha, decode_text), Model/Outline.lean (get_outlines.search on unfolded "
+    "entries), Model/OutlineGraph.lean (the same walk on an object graph with the visited set), Model/NameTree.lean "
     "(lookup_name, get_dest) - correspondence-checked on generated catalogs",
     "the harness's PDF writer and its conversion of a generated case into (a) a PDF file and (b) the model's term "
     "(object resolution, dict_value/list_value/str_value glue and the xref layer are exercised, not modelled)",
@@ -50,7 +52,7 @@ ASSUMPTIONS = [
     "St >= 1, every non-root node carries Limits bounding its keys with siblings separated, destinations are non-empty "
     "arrays/dictionaries, roman values < 4000, text strings use defined PDFDocEncoding codes or well-formed UTF-16BE",
     "PDFDocEncoding code 0x16 maps to U+0017 as printed in ISO 32000-1 Table D.2",
-    "settings.STRICT is False (the default)",
+    "settings.STRICT False (default) for everything; label extraction additionally under settings.STRICT = True",
 ]
 STATEMENT_STATUS = {
     "pdfdoc_table_total": "proved (regenerated table has 256 entries)",
@@ -71,6 +73,14 @@ STATEMENT_STATUS = {
     "C17_label_partial": "partial: letter-style values <= 26 (everything else of the full statement)",
     "C17_outline_forest": "proved for every forest and level (mutual induction over the forest)",
     "C17_outline": "proved: get_outlines on the Outlines dictionary of any forest = preorder with levels from 1",
+    "utf16_roundtrip": "proved: decode_text(BOM ++ UTF-16BE encoding of any list of Unicode scalar values) = that list",
+    "alpha_bijective": "proved for every n > 0: the code's letters numeral read in bijective base 26 is n (what the code "
+                       "does instead of Table 159)",
+    "C17_label_strict": "proved: with settings.STRICT = True a conforming tree gives exactly the default-mode labels",
+    "C17_nametree_sorted": "proved: flattening of a conforming name tree is strictly ascending (keys unique)",
+    "C17_outline_terminates": "proved for every finite object graph incl. cycles, shared and dangling links: budget "
+                              "|store|+1 never exhausted, no object visited twice",
+    "C17_outline_graph_total": "proved (get_outlines on a graph always returns)",
     "C17_nametree": "proved for every conforming name tree and every key (found value / KeyError)",
     "C17_dest": "proved: get_dest = specification for strings (name tree) and names (Dests dictionary)",
 }
